@@ -55,9 +55,27 @@ static std::vector<Binding> read_bindings(const std::string &path) {
   return v;
 }
 
+static const char *const ABI_GOLDEN[] = {
+#include "abi_golden.inc"
+};
+static std::vector<Binding> golden_bindings() {
+  std::vector<Binding> v;
+  for (const char *g : ABI_GOLDEN) {
+    std::string n = g;
+    size_t at = n.find('@');
+    Binding b;
+    b.sym = n.substr(0, at);
+    b.is_default = n.compare(at, 2, "@@") == 0;
+    b.ver = n.substr(at + (b.is_default ? 2 : 1));
+    v.push_back(b);
+  }
+  return v;
+}
+
 struct TwoLibs {
   void *rel = nullptr, *fresh = nullptr;
   std::vector<Binding> rb, fb;
+  std::vector<Binding> all;  // released bindings plus those only the pinned release's default configuration exports
   static TwoLibs &get() {
     static TwoLibs t;
     static bool init = false;
@@ -68,6 +86,13 @@ struct TwoLibs {
       if (p) t.fresh = dlopen(p, RTLD_NOW | RTLD_LOCAL);
       t.rb = read_bindings(RELEASED_PATH());
       if (p) t.fb = read_bindings(p);
+      t.all = t.rb;
+      for (const Binding &g : golden_bindings()) {
+        bool have = false;
+        for (const Binding &b : t.rb)
+          if (b.sym == g.sym && b.ver == g.ver) have = true;
+        if (!have) t.all.push_back(g);
+      }
     }
     return t;
   }
@@ -150,6 +175,22 @@ static Verdict part_a(Ctx &ctx) {
     ctx.st.distinct_by_construction++;
     ctx.st.nontrivial++;
     ctx.st.cls("c20-a/binding/" + b.sym + "@" + b.ver);
+  }
+  // the pinned release's own default configuration (--enable-obsolete-api=yes) exports more than the Debian binary:
+  // those (symbol, version) pairs are part of the released interface too (Openwall/SUSE-built programs bind to them)
+  for (const Binding &g : golden_bindings()) {
+    ctx.st.evaluations++;
+    bool found = false, def_same = false;
+    for (const Binding &f : L.fb)
+      if (f.sym == g.sym && f.ver == g.ver) {
+        found = true;
+        def_same = f.is_default == g.is_default;
+      }
+    if (!found || !dlvsym(L.fresh, g.sym.c_str(), g.ver.c_str())) return "C20 release 4.4.39 exports " + g.sym + "@" + g.ver + " in its default configuration but the fresh library does not";
+    if (!def_same) return "C20 " + g.sym + "@" + g.ver + (g.is_default ? " is the default version in the release but not in the fresh library" : " became the default version");
+    ctx.st.distinct_by_construction++;
+    ctx.st.nontrivial++;
+    ctx.st.cls("c20-a/golden/" + g.sym + "@" + g.ver);
   }
   return "";
 }
@@ -297,7 +338,12 @@ static Verdict c20_check(const KV &c, Ctx &ctx) {
   bool skey = false, skey_r = false;
   int nops = 0;
   for (size_t i = 0; i + 4 <= ops.size() && v.empty(); i += 4) {
-    const Binding &b = L.rb[(unsigned char)ops[i] % L.rb.size()];
+    const Binding &b = L.all[(unsigned char)ops[i] % L.all.size()];
+    // a binding the Debian binary lacks is compared with the released default version of the same symbol
+    Binding brel = b;
+    if (!dlvsym(L.rel, b.sym.c_str(), b.ver.c_str()))
+      for (const Binding &d : L.rb)
+        if (d.sym == b.sym && d.is_default) brel = d;
     int ri = (unsigned char)ops[i + 1] % nreq;
     unsigned char arg = (unsigned char)ops[i + 2];
     unsigned long count = (unsigned char)ops[i + 3] < 200 ? 0 : (unsigned long)((unsigned char)ops[i + 3] - 200);
@@ -310,7 +356,7 @@ static Verdict c20_check(const KV &c, Ctx &ctx) {
       ctx.st.excluded_known++;
       continue;
     }
-    OpRes a = run_op(rel, b, P[(size_t)ri], Sx, count, rb, arg);
+    OpRes a = run_op(rel, brel, P[(size_t)ri], Sx, count, rb, arg);
     OpRes f = run_op(fr, b, P[(size_t)ri], Sx, count, rb, arg);
     ctx.st.executed += 2;
     nops++;
@@ -326,10 +372,11 @@ static Verdict c20_check(const KV &c, Ctx &ctx) {
     // inside the fresh library every compat binding behaves as the modern (default) one
     for (const Binding &d : L.rb) {
       if (d.sym == b.sym && d.ver == b.ver) continue;
-      bool same_family = sigclass(d.sym) == sc && d.is_default && (sc == 0 || sc == 1 || sc == 4 || sc == 5);
+      bool same_family = sigclass(d.sym) == sc && d.is_default && (sc <= 6);
       if (!same_family) continue;
       Side tmp{L.fresh, fr.obj};
       OpRes m = run_op(tmp, d, P[(size_t)ri], Sx, count, rb, arg);
+      free(tmp.ra);
       ctx.st.executed++;
       if (m.null_ret != f.null_ret || m.s != f.s) { v = "C20 in the fresh library " + b.sym + "@" + b.ver + " and " + d.sym + "@@" + d.ver + " disagree on " + call; break; }
     }
